@@ -1,4 +1,5 @@
 (* C02 — proofs about Model/HttpAdmit.v *)
+From Coq Require Import Lia.
 From FRP Require Import Model.HttpAdmit Proofs.HttpRewriteProofs.
 Open Scope Z_scope.
 
@@ -120,3 +121,110 @@ Proof.
   unfold hsv_head_admitted, hsv_max_header_bytes. rewrite (hsv_lookup_reviewed fs H).
   f_equal. apply Z.leb_le. exact Hle.
 Qed.
+
+(* ---------------------------------------------------------------------------------------- *)
+(* groups *)
+Theorem hg_glue_ok_sound : forall g,
+  hg_glue_ok g = true ->
+  (forall chosen, hg_key_endpoint g chosen = chosen) /\
+  (forall ms index, hg_connect_conn g ms index = hg_create_conn ms index).
+Proof.
+  intros g H. unfold hg_glue_ok in H.
+  repeat (apply andb_true_iff in H; let H2 := fresh "H" in destruct H as [H H2]).
+  split.
+  - intro chosen. unfold hg_key_endpoint. rewrite H, H4, H3. reflexivity.
+  - intros ms index. unfold hg_connect_conn. rewrite H1, H0. reflexivity.
+Qed.
+
+Lemma hg_create_conn_live : forall ms index, ms <> [] -> exists b, hg_create_conn ms index = Some b.
+Proof.
+  intros ms index Hne. unfold hg_create_conn. destruct ms as [|m ms]; [contradiction|].
+  remember (m :: ms) as l.
+  assert (Hlen : (Z.to_nat (index mod Z.of_nat (length l)) < length l)%nat).
+  { assert (0 < Z.of_nat (length l)) by (subst l; simpl length; lia).
+    pose proof (Z.mod_pos_bound index (Z.of_nat (length l)) H). lia. }
+  destruct (nth_error l (Z.to_nat (index mod Z.of_nat (length l)))) as [[n b]|] eqn:E.
+  - subst l. exists b. reflexivity.
+  - apply nth_error_None in E. lia.
+Qed.
+
+(* locks *)
+Lemma lk_state_eqb_eq : forall a b, lk_state_eqb a b = true -> a = b.
+Proof.
+  intros [r1 w1 a1 d1 ww1 rr1] [r2 w2 a2 d2 ww2 rr2] H. unfold lk_state_eqb in H. simpl in H.
+  repeat (apply andb_true_iff in H; let H2 := fresh "H" in destruct H as [H H2]).
+  apply Z.eqb_eq in H. apply Bool.eqb_prop in H4. apply Bool.eqb_prop in H3.
+  apply Z.eqb_eq in H2. apply Z.eqb_eq in H1. apply Z.eqb_eq in H0. subst. reflexivity.
+Qed.
+
+Lemma lk_mem_In : forall s l, lk_mem s l = true -> In s l.
+Proof.
+  intros s l H. unfold lk_mem in H. apply existsb_exists in H. destruct H as [x [Hin He]].
+  apply lk_state_eqb_eq in He. subst. exact Hin.
+Qed.
+
+Lemma lk_state_eqb_refl : forall a, lk_state_eqb a a = true.
+Proof.
+  intros [r w a d ww rr]. unfold lk_state_eqb. simpl.
+  rewrite !Z.eqb_refl, !Bool.eqb_reflx. reflexivity.
+Qed.
+
+Lemma lk_In_mem : forall s l, In s l -> lk_mem s l = true.
+Proof.
+  intros s l H. unfold lk_mem. apply existsb_exists. exists s. split; [exact H|apply lk_state_eqb_refl].
+Qed.
+
+Lemma lk_closed_reach : forall d l, lk_closed d l = true -> forall sched, In (lk_run d sched) l.
+Proof.
+  intros d l H. unfold lk_closed in H. apply andb_true_iff in H. destruct H as [Hi Hc].
+  rewrite forallb_forall in Hc.
+  assert (Hgen : forall sched s, In s l -> In (fold_left (lk_step d) sched s) l).
+  { induction sched as [|t sched IH]; intros s Hs; simpl; [exact Hs|].
+    apply IH. specialize (Hc s Hs). rewrite forallb_forall in Hc.
+    apply lk_mem_In. apply Hc. unfold lk_succ. destruct t; simpl; tauto. }
+  intro sched. unfold lk_run. apply Hgen. apply lk_mem_In. exact Hi.
+Qed.
+
+(* the dial is made without the lock: after ANY interleaving of the three threads, the membership change and
+   the other request run to completion (lk_completes: W reaches state 3, R state 2) although the first dial
+   never returns.  (Stated through lk_completes: unfolding eleven symbolic steps on an unknown state is
+   exponential for the kernel.) *)
+Lemma lk_unlocked_closed : lk_closed false lk_states_unlocked = true.
+Proof. vm_compute; reflexivity. Qed.
+Lemma lk_unlocked_all_complete : forallb (lk_completes false) lk_states_unlocked = true.
+Proof. vm_compute; reflexivity. Qed.
+
+Theorem lk_unlocked_dial_blocks_nobody : forall sched, lk_completes false (lk_run false sched) = true.
+Proof.
+  intro sched. pose proof lk_unlocked_all_complete as Hall. rewrite forallb_forall in Hall.
+  apply Hall. apply (lk_closed_reach false _ lk_unlocked_closed).
+Qed.
+
+(* the dial made under the read lock: one interleaving after which neither the membership change nor any other
+   request of the group makes a step again *)
+Definition lk_stuck_state : lk_state :=
+  {| ls_readers := 1; ls_wwait := true; ls_wactive := false; ls_d := 1; ls_w := 1; ls_r := 0 |}.
+
+Lemma lk_stuck_step : forall t, lk_step true lk_stuck_state t = lk_stuck_state.
+Proof. intros []; reflexivity. Qed.
+
+Theorem lk_locked_dial_hangs_the_group : forall rest,
+  lk_run true [LkD; LkW] = lk_stuck_state /\
+  let e := fold_left (lk_step true) rest (lk_run true [LkD; LkW]) in ls_w e = 1 /\ ls_r e = 0.
+Proof.
+  intro rest. split; [reflexivity|].
+  change (lk_run true [LkD; LkW]) with lk_stuck_state. cbv zeta.
+  induction rest as [|t r IH]; [split; reflexivity|].
+  simpl fold_left. rewrite lk_stuck_step. exact IH.
+Qed.
+
+Theorem lk_dial_shapes_ok_sound : forall shapes : list (string * list lk_ev),
+  forallb (fun s => lk_dial_unlocked (snd s)) shapes = true ->
+  forall (name : string) (evs : list lk_ev), In (name, evs) shapes -> lk_held_at_dial evs false false = Some false.
+Proof.
+  intros shapes H name evs Hin. rewrite forallb_forall in H. specialize (H _ Hin). simpl in H.
+  unfold lk_dial_unlocked in H. destruct (lk_held_at_dial evs false false) as [[|]|]; try discriminate. reflexivity.
+Qed.
+
+Theorem qs_graceful_delivers : forall calls written d, qs_graceful calls = true -> qs_received calls written d = written.
+Proof. intros calls written d H. unfold qs_received. rewrite H. reflexivity. Qed.
